@@ -638,3 +638,137 @@ Lemma vp_view_live_kept : vp_view_live_kept_stmt.
 Proof.
   intros sch h o v Hwf Hok Hl. eapply lext_liveb; [|exact Hl]. apply step_lext. apply hokP_of. exact Hok.
 Qed.
+
+(* ================================================================== the views an operation returns are live *)
+Definition res_live (hr : heap * pval) : Prop :=
+  view_liveb (fst hr) (snd hr) = true /\
+  match snd hr with PRange l => forallb (fun c => view_liveb (fst hr) (snd c)) l = true | _ => True end.
+
+Lemma res_live_elem h t e : res_live (h, elem_to_pval t e).
+Proof. destruct t; destruct e; split; cbn; auto. Qed.
+Lemma res_live_zero h t : res_live (h, zero_elem t).
+Proof. destruct t; split; cbn; auto. Qed.
+
+Section ResLive.
+  Variable sch : schema.
+
+  Lemma own_read_list h mid p ob id f l : recv_obj sch h mid p = Some ob -> p = Some id ->
+    nth_error (o_cells ob) f = Some (CList l) -> read_list h (RField id f) = Some l.
+  Proof. intros R -> C. apply recv_obj_inv in R. destruct R as [G _]. cbn [read_list]. rewrite G, C. reflexivity. Qed.
+  Lemma own_read_map h mid p ob id f m : recv_obj sch h mid p = Some ob -> p = Some id ->
+    nth_error (o_cells ob) f = Some (CMap m) -> read_map h (RField id f) = Some m.
+  Proof. intros R -> C. apply recv_obj_inv in R. destruct R as [G _]. cbn [read_map]. rewrite G, C. reflexivity. Qed.
+
+  Lemma get_field_live h mid p ob f fd : recv_obj sch h mid p = Some ob -> res_live (h, get_field ob p f fd).
+  Proof.
+    intro R. unfold get_field. destruct (f_shape fd) eqn:Sh.
+    1,2,4: destruct (nth_error (o_cells ob) f) as [[v|q|l|m|]|] eqn:C; try (split; cbn; auto; fail);
+      try (destruct (f_ty fd); split; cbn; auto; fail).
+    all: try (destruct (Nat.eqb (olen l) 0); [split; cbn; auto|]; destruct p as [id|]; [|split; cbn; auto];
+              split; [|exact I]; cbn [fst snd view_liveb]; rewrite (own_read_list _ _ _ _ _ _ _ R eq_refl C); reflexivity).
+    all: try (destruct (Nat.eqb (olen m) 0); [split; cbn; auto|]; destruct p as [id|]; [|split; cbn; auto];
+              split; [|exact I]; cbn [fst snd view_liveb]; rewrite (own_read_map _ _ _ _ _ _ _ R eq_refl C); reflexivity).
+    destruct (nth oneof (o_oneofs ob) None) as [[f' e]|]; [|apply res_live_zero].
+    destruct (Nat.eqb f' f); [apply res_live_elem|apply res_live_zero].
+  Qed.
+
+  Lemma range_field_live h mid p ob f fd : recv_obj sch h mid p = Some ob -> res_live (h, range_field ob p f fd).
+  Proof.
+    intro R. unfold range_field. pose proof (get_field_live h mid p ob f fd R) as G.
+    destruct (f_shape fd) eqn:Sh; try exact G;
+      (destruct (nth_error (o_cells ob) f) as [[v|q|l|m|]|] eqn:C; try exact G; destruct p as [id|]; try exact G;
+       first [ split; [|exact I]; cbn [fst snd view_liveb]; rewrite (own_read_list _ _ _ _ _ _ _ R eq_refl C); reflexivity
+             | split; [|exact I]; cbn [fst snd view_liveb]; rewrite (own_read_map _ _ _ _ _ _ _ R eq_refl C); reflexivity
+             | split; [reflexivity|exact I] ]).
+  Qed.
+
+  Lemma range_from_live h mid p ob : recv_obj sch h mid p = Some ob -> forall fs i,
+    forallb (fun c => view_liveb h (snd c)) (range_from ob p i fs) = true.
+  Proof.
+    intro R. induction fs as [|fd fs IH]; intro i; [reflexivity|]. cbn [range_from]. rewrite forallb_app, IH, andb_true_r.
+    destruct (has_field ob i fd); [|reflexivity]. cbn [forallb snd]. rewrite andb_true_r.
+    exact (proj1 (range_field_live h mid p ob i fd R)).
+  Qed.
+
+  Lemma res_live_range h mid p ob fs : recv_obj sch h mid p = Some ob -> res_live (h, PRange (range_from ob p 0 fs)).
+  Proof. intro R. split; [reflexivity|]. cbn [fst snd]. apply range_from_live with (mid := mid). exact R. Qed.
+
+  Lemma res_live_newlist h t : res_live (h ++ [HListVar (Some [])], PList t (RVar (length h))).
+  Proof.
+    split; [|exact I]. cbn [fst snd view_liveb read_list]. unfold hget. rewrite nth_error_app2 by lia. rewrite Nat.sub_diag. reflexivity.
+  Qed.
+  Lemma res_live_newmap h kk t : res_live (h ++ [HMapVar (Some [])], PMap kk t (RVar (length h))).
+  Proof.
+    split; [|exact I]. cbn [fst snd view_liveb read_map]. unfold hget. rewrite nth_error_app2 by lia. rewrite Nat.sub_diag. reflexivity.
+  Qed.
+
+  (* Mutable of a repeated / map field *)
+  Lemma res_live_mut_list_set h mid id ob f t l0 l : recv_obj sch h mid (Some id) = Some ob ->
+    nth_error (o_cells ob) f = Some (CList l0) -> res_live (hset h id (HObj (set_cell ob f (CList l))), PList t (RField id f)).
+  Proof.
+    intros R C. apply recv_obj_inv in R. destruct R as [G _]. split; [|exact I]. cbn [fst snd view_liveb read_list].
+    rewrite get_obj_hset_eq by (eapply get_obj_lt; eauto). cbn [set_cell o_cells].
+    rewrite nth_error_set_nth_eq by (eapply nth_error_Some_lt; eauto). reflexivity.
+  Qed.
+  Lemma res_live_mut_map_set h mid id ob f kk t m0 m : recv_obj sch h mid (Some id) = Some ob ->
+    nth_error (o_cells ob) f = Some (CMap m0) -> res_live (hset h id (HObj (set_cell ob f (CMap m))), PMap kk t (RField id f)).
+  Proof.
+    intros R C. apply recv_obj_inv in R. destruct R as [G _]. split; [|exact I]. cbn [fst snd view_liveb read_map].
+    rewrite get_obj_hset_eq by (eapply get_obj_lt; eauto). cbn [set_cell o_cells].
+    rewrite nth_error_set_nth_eq by (eapply nth_error_Some_lt; eauto). reflexivity.
+  Qed.
+
+  Lemma field_cell h mid id ob f fd : hokP sch h -> recv_obj sch h mid (Some id) = Some ob -> field_of sch mid f = Some fd ->
+    exists c, nth_error (o_cells ob) f = Some c /\ cell_fitsb fd c = true.
+  Proof.
+    intros H R F. apply recv_obj_inv in R. destruct R as [G M]. pose proof (H _ _ G) as K. unfold rp_obj_okb in K. unfold field_of in F.
+    rewrite M in K. destruct (get_msg sch mid) as [md|]; [|discriminate].
+    apply andb_prop in K. destruct K as [K _]. apply andb_prop in K. destruct K as [K _]. eapply cells_fitb_nth; eauto.
+  Qed.
+
+  Lemma res_live_mut_list h mid id ob f fd b t : hokP sch h -> recv_obj sch h mid (Some id) = Some ob -> field_of sch mid f = Some fd ->
+    f_shape fd = Rep b -> res_live (h, PList t (RField id f)).
+  Proof.
+    intros H R F Sh. destruct (field_cell _ _ _ _ _ _ H R F) as [c [C Fit]]. unfold cell_fitsb in Fit. rewrite Sh in Fit.
+    destruct c; try (destruct (f_ty fd); discriminate). split; [|exact I]. cbn [fst snd view_liveb].
+    rewrite (own_read_list _ _ _ _ _ _ _ R eq_refl C). reflexivity.
+  Qed.
+  Lemma res_live_mut_map h mid id ob f fd kk kk' t : hokP sch h -> recv_obj sch h mid (Some id) = Some ob -> field_of sch mid f = Some fd ->
+    f_shape fd = MapOf kk' -> res_live (h, PMap kk t (RField id f)).
+  Proof.
+    intros H R F Sh. destruct (field_cell _ _ _ _ _ _ H R F) as [c [C Fit]]. unfold cell_fitsb in Fit. rewrite Sh in Fit.
+    destruct c; try (destruct (f_ty fd); discriminate). split; [|exact I]. cbn [fst snd view_liveb].
+    rewrite (own_read_map _ _ _ _ _ _ _ R eq_refl C). reflexivity.
+  Qed.
+
+  Ltac rdm :=
+    match goal with
+    | |- context [match ?x with _ => _ end] => destruct x eqn:?
+    | |- context [if ?x then _ else _] => destruct x eqn:?
+    end.
+
+  Ltac rleaf H :=
+    first
+      [ split; [reflexivity | exact I]
+      | apply res_live_elem
+      | apply res_live_zero
+      | eapply get_field_live; eassumption
+      | eapply res_live_range; eassumption
+      | apply res_live_newlist
+      | apply res_live_newmap
+      | eapply res_live_mut_list_set; eassumption
+      | eapply res_live_mut_map_set; eassumption
+      | eapply res_live_mut_list; [exact H | eassumption | eassumption | eassumption]
+      | eapply res_live_mut_map; [exact H | eassumption | eassumption | eassumption] ].
+
+  Lemma step_res_live : forall h o, hokP sch h -> res_live (step sch h o).
+  Proof.
+    intros h o H. destruct o; cbn [step]; unfold halloc; repeat rdm; rleaf H.
+  Qed.
+End ResLive.
+
+Lemma vp_result_live : vp_result_live_stmt.
+Proof.
+  intros sch h o Hwf Hok. pose proof (step_res_live sch h o (hokP_of _ _ Hok)) as X. unfold res_live in X.
+  destruct (step sch h o) as [h' res]. exact X.
+Qed.
